@@ -571,7 +571,7 @@ def items(tier: str, seed: int) -> List[Dict[str, Any]]:
     out: List[Dict[str, Any]] = []
     for k, (vary, extra) in enumerate(PAIRS_QUICK if quick else PAIRS_THOROUGH):
         for tpl in range(len(TEMPLATES)):
-            for base in ((k + tpl) % 2,) if quick else (0, 1):
+            for base in ((k + tpl) % 2,) if quick or k >= len(PAIRS_QUICK) else (0, 1):
                 out.append({"ob": "codegen_equiv", "params": {"vary": vary, "extra": extra, "base": base, "tpl": tpl},
                             "timeout": 600 if quick else 2400,
                             "label": f"codegen_equiv[{TEMPLATES[tpl]},{'+'.join(vary) or '-'}|{'+'.join(extra)},base={'on' if base else 'off'}]"})
